@@ -12,5 +12,5 @@ CONSTANTS
   InitCaps = {0, 3, 4, 28}
 SPECIFICATION MCSpec
 CONSTRAINT Bounded
-INVARIANTS TypeOK Shape NoErr CursorAgrees CapGeLen Headroom FreshProbe TwoTables KeyAdding RemoveFrees ReserveContract ShrinkContract
+INVARIANTS TypeOK Shape NoErr CursorAgrees CapGeLen Headroom FreshProbe TwoTables KeyAdding RemoveFrees ReserveContract ShrinkContract CloneContract
 CHECK_DEADLOCK FALSE
